@@ -11,10 +11,15 @@ import (
 	"verifharness/internal/vrt"
 )
 
+var genFreeForceDelay bool
+
 func genFree(t *rapid.T, withInvalid bool, shutdownPct int) FreeScenario {
 	sc := FreeScenario{}
 	sc.Skip = rapid.IntRange(0, 4).Draw(t, "skip") == 0
 	sc.Delay = rapid.IntRange(0, 3).Draw(t, "delay") == 0
+	if genFreeForceDelay {
+		sc.Delay = true
+	}
 	sc.Suppress = rapid.Bool().Draw(t, "suppress")
 	sc.NWatch = rapid.IntRange(1, 3).Draw(t, "n_watch")
 	sc.Defaults = SimDefaults{A: -1, B: -2, C: -3, Name: "default", SubX: 7}
@@ -86,6 +91,9 @@ func genFree(t *rapid.T, withInvalid bool, shutdownPct int) FreeScenario {
 					a.Ops = append(a.Ops, FreeOp{K: "unregister", H: rapid.IntRange(0, regs-1).Draw(t, "h"), DelayNS: delay()})
 				}
 			default:
+				a.Ops = append(a.Ops, FreeOp{K: "enable", DelayNS: delay()})
+			}
+			if genFreeForceDelay && rapid.IntRange(0, 2).Draw(t, "extra_enable") == 0 {
 				a.Ops = append(a.Ops, FreeOp{K: "enable", DelayNS: delay()})
 			}
 			total++
@@ -186,6 +194,24 @@ func TestC06Free(t *testing.T) {
 		Gen: func(t *rapid.T) FreeScenario { return genFree(t, false, 20) },
 		Run: func(sc FreeScenario) vrt.Verdict {
 			return runFreeTagged(sc, func(r *Result, sc *FreeScenario) bool { return r.Calls >= 3 }, "C06")
+		},
+	})
+}
+
+func TestC09Free(t *testing.T) {
+	curT = t
+	vrt.Check(t, vrt.Prop[FreeScenario]{
+		ID: "C09", Name: "free",
+		Rule: "free-running cases (see C08/free) with DelayInitialVerification always set: reporters deliver valid and invalid values while client goroutines call EnableVerification (repeatedly, failing and succeeding) at drawn virtual instants; " +
+			"oracle (history invariants): Verify is never invoked before the first EnableVerification call was issued; a successful EnableVerification returns a config that passes Verify together with the serial it was stored with; no version that fails Verify is installed with a serial greater than the one a successful EnableVerification returned (atomic switch-on); failures return the verifier's error; " +
+			"non-trivial = an EnableVerification succeeded while reports were in flight; distinct = distinct scenario JSON",
+		Gen: func(t *rapid.T) FreeScenario {
+			genFreeForceDelay = true
+			defer func() { genFreeForceDelay = false }()
+			return genFree(t, true, 0)
+		},
+		Run: func(sc FreeScenario) vrt.Verdict {
+			return runFreeTagged(sc, func(r *Result, sc *FreeScenario) bool { return r.Labels["enable-succeeded"] && r.Installs >= 1 }, "C09")
 		},
 	})
 }
